@@ -52,6 +52,11 @@ type c13kPod struct {
 	Extra   []c13Extra `json:"extra"`
 	NoPeer  bool       `json:"no_peer"`
 	Wide16  bool       `json:"wide16"`
+	// exclusive ENI only: a second interface eth1 on its own ENI (MultiNetwork)
+	Multi    bool   `json:"multi"`
+	IP4b     string `json:"ip4_eth1"`
+	IP6b     string `json:"ip6_eth1"`
+	DefaultB bool   `json:"default_on_eth1"`
 }
 
 type c13kOp struct {
@@ -142,6 +147,17 @@ func c13kGen(t *rapid.T) c13kScenario {
 		p.Prefix6 = rapid.OneOf(rapid.IntRange(56, 120), rapid.IntRange(8, 128)).Draw(t, "p6")
 		p.NoPeer = rapid.IntRange(0, 4).Draw(t, "nopeer") == 0
 		p.Wide16 = rapid.Bool().Draw(t, "wide16")
+		if s.DP == c13DPExclusive && rapid.IntRange(0, 2).Draw(t, "multi") == 0 {
+			p.Multi = true
+			p.NoPeer = rapid.Bool().Draw(t, "nopeer-multi")
+			lastB := byte(2 + 2*(k+3) + rapid.IntRange(0, 1).Draw(t, "bitb"))
+			p.IP4b = net.IPv4(base4[0], base4[1], rapid.Byte().Draw(t, "ip4b"), lastB).String()
+			ip := append(net.IP{}, base6...)
+			ip[7] ^= rapid.Byte().Draw(t, "ip6b")
+			ip[15] = lastB
+			p.IP6b = ip.String()
+			p.DefaultB = rapid.Bool().Draw(t, "defaultb")
+		}
 		nExtra := rapid.SampledFrom([]int{0, 0, 1, 2}).Draw(t, "extras")
 		for j := 0; j < nExtra; j++ {
 			v6 := rapid.Bool().Draw(t, "x6")
@@ -271,6 +287,8 @@ type c13kEnv struct {
 	eni    netlink.Link // shared ENI stand-in (policy)
 	live   map[int]*c13kLive
 	everUp map[int]bool
+	// known finding C13-exclusive-eth1-host-peer: run multi-network pods with eth0 only
+	dropSecond bool
 }
 
 func (e *c13kEnv) scaffold(err error, what string) {
@@ -307,12 +325,52 @@ func (s *c13kScenario) podOf(k int) int { return ((k % len(s.Pods)) + len(s.Pods
 func c13kHostVeth(p int) string { return fmt.Sprintf("cali%08d", p) }
 func c13kEniName(p int) string  { return fmt.Sprintf("eni%d", p) }
 
+// names of interface i (0: eth0, 1: eth1) of pod p
+func c13kIfName(i int) string { return fmt.Sprintf("eth%d", i) }
+func c13kIfHostVeth(p, i int) string {
+	if i == 0 {
+		return c13kHostVeth(p)
+	}
+	return fmt.Sprintf("cali%07db", p) // link.VethNameForPod hashes the interface name in
+}
+func c13kIfEni(p, i int) string {
+	if i == 0 {
+		return c13kEniName(p)
+	}
+	return c13kEniName(p) + "b"
+}
+
+// ifaces: how many interfaces pod p has in this run
+func (e *c13kEnv) ifaces(p int) int {
+	if e.s.Pods[p].Multi && !e.dropSecond {
+		return 2
+	}
+	return 1
+}
+
+func (e *c13kEnv) ifAddr(p, i int, v6 bool) net.IP {
+	pod := &e.s.Pods[p]
+	switch {
+	case i == 0 && !v6:
+		return net.ParseIP(pod.IP4).To4()
+	case i == 0:
+		return net.ParseIP(pod.IP6)
+	case !v6:
+		return net.ParseIP(pod.IP4b).To4()
+	}
+	return net.ParseIP(pod.IP6b)
+}
+
 func (e *c13kEnv) setupConfig(p int, eniIndex int) *types.SetupConfig {
+	return e.setupConfigIf(p, 0, eniIndex)
+}
+
+func (e *c13kEnv) setupConfigIf(p, i int, eniIndex int) *types.SetupConfig {
 	s := e.s
 	pod := &s.Pods[p]
 	cfg := &types.SetupConfig{
-		HostVETHName:      c13kHostVeth(p),
-		ContainerIfName:   "eth0",
+		HostVETHName:      c13kIfHostVeth(p, i),
+		ContainerIfName:   c13kIfName(i),
 		ContainerIPNet:    &terwayTypes.IPNetSet{},
 		GatewayIP:         &terwayTypes.IPSet{},
 		ENIGatewayIP:      &terwayTypes.IPSet{},
@@ -323,19 +381,23 @@ func (e *c13kEnv) setupConfig(p int, eniIndex int) *types.SetupConfig {
 		DefaultRoute:      true,
 		DisableCreatePeer: pod.NoPeer,
 	}
+	if e.ifaces(p) > 1 {
+		cfg.MultiNetwork = true
+		cfg.DefaultRoute = (i == 1) == pod.DefaultB
+	}
 	if s.DP == c13DPPolicy {
 		cfg.DP = types.IPVlan
 	} else {
 		cfg.DP = types.ExclusiveENI
 	}
 	if s.V4 {
-		cfg.ContainerIPNet.IPv4 = &net.IPNet{IP: c13IP(pod.IP4, pod.Wide16), Mask: net.CIDRMask(pod.Prefix4, 32)}
+		cfg.ContainerIPNet.IPv4 = &net.IPNet{IP: c13IP(e.ifAddr(p, i, false).String(), pod.Wide16), Mask: net.CIDRMask(pod.Prefix4, 32)}
 		cfg.GatewayIP.IPv4 = c13IP(s.GW4, pod.Wide16)
 		cfg.ENIGatewayIP.IPv4 = c13IP(s.GW4, pod.Wide16)
 		cfg.HostIPSet.IPv4 = &net.IPNet{IP: c13IP(s.HostIP4, pod.Wide16), Mask: net.CIDRMask(32, 32)}
 	}
 	if s.V6 {
-		cfg.ContainerIPNet.IPv6 = &net.IPNet{IP: net.ParseIP(pod.IP6), Mask: net.CIDRMask(pod.Prefix6, 128)}
+		cfg.ContainerIPNet.IPv6 = &net.IPNet{IP: e.ifAddr(p, i, true), Mask: net.CIDRMask(pod.Prefix6, 128)}
 		cfg.GatewayIP.IPv6 = net.ParseIP(s.GW6)
 		cfg.ENIGatewayIP.IPv6 = net.ParseIP(s.GW6)
 		cfg.HostIPSet.IPv6 = &net.IPNet{IP: net.ParseIP(s.HostIP6), Mask: net.CIDRMask(128, 128)}
@@ -344,6 +406,9 @@ func (e *c13kEnv) setupConfig(p int, eniIndex int) *types.SetupConfig {
 		cfg.HostStackCIDRs = append(cfg.HostStackCIDRs, c13CIDR(h))
 	}
 	for _, x := range pod.Extra {
+		if i != 0 {
+			break // extra routes belong to eth0 in this harness
+		}
 		r := cniTypes.Route{Dst: *c13CIDR(x.Dst)}
 		if x.GW != "" {
 			r.GW = c13IP(x.GW, pod.Wide16)
@@ -353,13 +418,28 @@ func (e *c13kEnv) setupConfig(p int, eniIndex int) *types.SetupConfig {
 	return cfg
 }
 
+// podAddrs: the addresses of eth0 (the only interface with a host-side link)
 func (e *c13kEnv) podAddrs(p int) []net.IP {
 	var out []net.IP
 	if e.s.V4 {
-		out = append(out, net.ParseIP(e.s.Pods[p].IP4).To4())
+		out = append(out, e.ifAddr(p, 0, false))
 	}
 	if e.s.V6 {
-		out = append(out, net.ParseIP(e.s.Pods[p].IP6))
+		out = append(out, e.ifAddr(p, 0, true))
+	}
+	return out
+}
+
+// allAddrs: addresses of every interface the scenario may give the pod
+func (e *c13kEnv) allAddrs(p int) []net.IP {
+	out := e.podAddrs(p)
+	if e.s.Pods[p].Multi {
+		if e.s.V4 {
+			out = append(out, e.ifAddr(p, 1, false))
+		}
+		if e.s.V6 {
+			out = append(out, e.ifAddr(p, 1, true))
+		}
 	}
 	return out
 }
@@ -376,9 +456,19 @@ func c13kHostPrefix(ip net.IP) string {
 func (e *c13kEnv) podSpecific(p int, hostLink int, it c13kItem) bool {
 	switch it.Kind {
 	case "link":
-		return it.Name == c13kHostVeth(p) || (e.s.DP == c13DPExclusive && (it.Name == c13kEniName(p) || it.Name == c13kEniName(p)+"p"))
+		if it.Name == c13kIfHostVeth(p, 0) || it.Name == c13kIfHostVeth(p, 1) {
+			return true
+		}
+		if e.s.DP == c13DPExclusive {
+			for i := 0; i < 2; i++ {
+				if it.Name == c13kIfEni(p, i) || it.Name == c13kIfEni(p, i)+"p" {
+					return true
+				}
+			}
+		}
+		return false
 	case "rule":
-		for _, a := range e.podAddrs(p) {
+		for _, a := range e.allAddrs(p) {
 			if it.Src == c13kHostPrefix(a) || it.Dst == c13kHostPrefix(a) {
 				return true
 			}
@@ -387,7 +477,7 @@ func (e *c13kEnv) podSpecific(p int, hostLink int, it c13kItem) bool {
 		if hostLink != 0 && it.Oif == hostLink {
 			return true
 		}
-		for _, a := range e.podAddrs(p) {
+		for _, a := range e.allAddrs(p) {
 			if it.Dst == c13kHostPrefix(a) {
 				return true
 			}
@@ -588,29 +678,59 @@ func (e *c13kEnv) verifyLive(p int, when string) {
 					wantGW = net.ParseIP("fe80::1")
 				}
 			}
+			defIf := 0
+			if e.ifaces(p) > 1 && pod.DefaultB {
+				defIf = 1
+			}
+			defLink, err := netlink.LinkByName(c13kIfName(defIf))
+			if err != nil {
+				return fmt.Errorf("no %s in the container: %v", c13kIfName(defIf), err)
+			}
 			r, err := c13kRouteGet(c13kOutside(v6), nil)
 			if err != nil {
 				return fmt.Errorf("route get outside (%s): %v", famName, err)
 			}
-			if r.LinkIndex != eth0.Attrs().Index || r.Gw == nil || !r.Gw.Equal(wantGW) {
-				return fmt.Errorf("%s traffic to outside goes %s, want dev eth0 via %s", famName, c13kDescribe(r), wantGW)
+			if r.LinkIndex != defLink.Attrs().Index || r.Gw == nil || !r.Gw.Equal(wantGW) {
+				return fmt.Errorf("%s traffic to outside goes %s, want dev %s via %s", famName, c13kDescribe(r), c13kIfName(defIf), wantGW)
 			}
-			ip := net.ParseIP(pod.IP4)
-			if v6 {
-				ip = net.ParseIP(pod.IP6)
-			}
-			found := false
-			as, err := netlink.AddrList(eth0, fam)
-			if err != nil {
-				return err
-			}
-			for _, a := range as {
-				if a.IP.Equal(ip) {
-					found = true
+			for i := 0; i < e.ifaces(p); i++ {
+				l, err := netlink.LinkByName(c13kIfName(i))
+				if err != nil {
+					return fmt.Errorf("no %s in the container: %v", c13kIfName(i), err)
 				}
-			}
-			if !found {
-				return fmt.Errorf("address %s is not on eth0 (%v)", ip, as)
+				ip := e.ifAddr(p, i, v6)
+				found := false
+				as, err := netlink.AddrList(l, fam)
+				if err != nil {
+					return err
+				}
+				for _, a := range as {
+					if a.IP.Equal(ip) {
+						found = true
+					}
+				}
+				if !found {
+					return fmt.Errorf("address %s is not on %s (%v)", ip, c13kIfName(i), as)
+				}
+				if e.ifaces(p) > 1 {
+					// traffic sourced from the interface's address leaves through it, from its own table
+					r, err := c13kRouteGet(c13kOutside(v6), &netlink.RouteGetOptions{SrcAddr: ip})
+					if err != nil {
+						return fmt.Errorf("route get outside from %s: %v", ip, err)
+					}
+					if r.LinkIndex != l.Attrs().Index || r.Gw == nil || !r.Gw.Equal(wantGW) || r.Table != 1000+l.Attrs().Index {
+						return fmt.Errorf("traffic from %s to outside goes %s, want dev %s via %s in table %d", ip, c13kDescribe(r), c13kIfName(i), wantGW, 1000+l.Attrs().Index)
+					}
+					if !v6 {
+						r, err := c13kRouteGet(c13kOutside(v6), &netlink.RouteGetOptions{Oif: c13kIfName(i)})
+						if err != nil {
+							return fmt.Errorf("route get outside oif %s: %v", c13kIfName(i), err)
+						}
+						if r.LinkIndex != l.Attrs().Index || r.Table != 1000+l.Attrs().Index {
+							return fmt.Errorf("traffic bound to %s goes %s, want table %d", c13kIfName(i), c13kDescribe(r), 1000+l.Attrs().Index)
+						}
+					}
+				}
 			}
 			for _, x := range pod.Extra {
 				dst := c13CIDR(x.Dst)
@@ -682,25 +802,27 @@ func (e *c13kEnv) doSetup(p int, when string) {
 	s := e.s
 	cont := e.newNS()
 	eni := e.eni
-	if s.DP == c13DPExclusive {
-		e.scaffold(c13kVeth(c13kEniName(p), c13kEniName(p)+"p"), "ENI stand-in")
-		l, err := netlink.LinkByName(c13kEniName(p))
-		e.scaffold(err, "ENI stand-in")
-		eni = l
-	}
 	// the CNI makes the host namespace forward before any datapath runs (doCmdAdd)
 	if err := utils.EnsureHostNsConfig(s.V4, s.V6); err != nil {
 		e.fatal("%s: EnsureHostNsConfig: %v", when, err)
 	}
-	cfg := e.setupConfig(p, eni.Attrs().Index)
-	var err error
-	if s.DP == c13DPPolicy {
-		err = NewPolicyRoute().Setup(e.ctx, cfg, cont)
-	} else {
-		err = NewExclusiveENIDriver().Setup(e.ctx, cfg, cont)
-	}
-	if err != nil {
-		e.fatal("%s: Setup(pod%d) failed: %v", when, p, err)
+	for i := 0; i < e.ifaces(p); i++ {
+		if s.DP == c13DPExclusive {
+			e.scaffold(c13kVeth(c13kIfEni(p, i), c13kIfEni(p, i)+"p"), "ENI stand-in")
+			l, err := netlink.LinkByName(c13kIfEni(p, i))
+			e.scaffold(err, "ENI stand-in")
+			eni = l
+		}
+		cfg := e.setupConfigIf(p, i, eni.Attrs().Index)
+		var err error
+		if s.DP == c13DPPolicy {
+			err = NewPolicyRoute().Setup(e.ctx, cfg, cont)
+		} else {
+			err = NewExclusiveENIDriver().Setup(e.ctx, cfg, cont)
+		}
+		if err != nil {
+			e.fatal("%s: Setup(pod%d/%s) failed: %v", when, p, c13kIfName(i), err)
+		}
 	}
 	lv := &c13kLive{ns: cont, eniName: eni.Attrs().Name}
 	if l, err := netlink.LinkByName(c13kHostVeth(p)); err == nil {
@@ -810,6 +932,19 @@ func c13kRun(c *vt.Ctx, s c13kScenario) {
 		c.Inconclusive("scaffold: current netns: " + err.Error())
 	}
 	e := &c13kEnv{c: c, s: &s, ctx: context.Background(), live: map[int]*c13kLive{}, everUp: map[int]bool{}}
+	for _, p := range s.Pods {
+		if p.Multi {
+			c.Label("multi-network")
+			if !p.NoPeer {
+				c.Label("multi-network-with-host-peer")
+				if vt.Known("C13-exclusive-eth1-host-peer") {
+					// ExclusiveENI.Setup looks up a host-side peer it never created for eth1
+					e.dropSecond = true
+					c.Label("known:C13-exclusive-eth1-host-peer")
+				}
+			}
+		}
+	}
 	defer func() {
 		if err := orig.Set(); err != nil {
 			// the thread cannot be handed back; never unlock it
@@ -921,7 +1056,11 @@ func c13kRun(c *vt.Ctx, s c13kScenario) {
 	for _, p := range s.Pods {
 		nExtra += len(p.Extra)
 	}
-	if nSetup > 0 && ((s.V4 && s.V6) || maxLive >= 2 || nExtra > 0) {
+	multi := false
+	for _, p := range s.Pods {
+		multi = multi || p.Multi
+	}
+	if nSetup > 0 && ((s.V4 && s.V6) || maxLive >= 2 || nExtra > 0 || multi) {
 		c.NonTrivial()
 	}
 	if maxLive >= 2 {
